@@ -28,6 +28,8 @@ type filterCase struct {
 	F Filt
 	// Partition: additionally check focus=R / ignore=R partition for this expression
 	PartR string
+	// Interactive: the filters are typed as option assignments at the interactive prompt instead of given as flags
+	Interactive bool
 }
 
 var profOpts = gen.Opts{Alpha: gen.Plain, MaxSamples: 8, MaxDepth: 5, MaxLines: 3, MinTypes: 1, MaxTypes: 2, AnyIDs: true, NoHugeIDs: true,
@@ -199,6 +201,7 @@ func genCase(t *rapid.T) *filterCase {
 	}
 	c.F.Relative = rapid.Bool().Draw(t, "relative")
 	c.PartR = genRegex(t, pool, "part")
+	c.Interactive = rapid.IntRange(0, 3).Draw(t, "interactive") == 0
 	return c
 }
 
@@ -685,6 +688,10 @@ func check(c *filterCase, o *vk.Obs) []string {
 	}
 	idx := len(p.SampleType) - 1
 	out, res, err := runProto(p, c.F)
+	if c.Interactive && typable(c.F) {
+		out, res, err = runProtoInteractive(p, c.F)
+		o.Label("typed-at-the-prompt")
+	}
 	if err != nil {
 		if res != nil && res.Panic != "" {
 			return []string{err.Error()}
@@ -812,6 +819,37 @@ func check(c *filterCase, o *vk.Obs) []string {
 			o.Label("traces-view")
 		}
 	}
+	// the public API called directly on an in-memory profile whose samples share their location lists
+	// (a converter that builds one list per distinct stack): hide/show must not write through the sharing
+	if c.F.ShowFrom == "" && c.F.TagFocus+c.F.TagIgnore+c.F.TagShow+c.F.TagHide == "" && !ex.undecided {
+		q := c.P.Build().Copy()
+		shared := false
+		for j := range q.Sample {
+			for i := 0; i < j; i++ {
+				a, b := q.Sample[i].Location, q.Sample[j].Location
+				if len(a) >= len(b) && len(b) > 0 && sameLocs(a[len(a)-len(b):], b) {
+					// sample j's stack is sample i's stack, or its root-side tail: one backing array
+					q.Sample[j].Location = a[len(a)-len(b):]
+					shared = true
+					break
+				}
+			}
+		}
+		if shared {
+			o.Label("shared-location-lists")
+			q.FilterSamplesByName(comp(c.F.Focus), comp(c.F.Ignore), comp(c.F.Hide), comp(c.F.Show))
+			gotD := flatten(q)
+			if len(gotD) != len(ex.samples) {
+				e.Addf("FilterSamplesByName called directly (filters %+v, samples sharing location lists): %d samples survive, the documentation says %d", c.F, len(gotD), len(ex.samples))
+			} else {
+				for i := range gotD {
+					if fstr(gotD[i].Frames) != fstr(ex.samples[i].Frames) || fmt.Sprint(gotD[i].Values) != fmt.Sprint(ex.samples[i].Values) {
+						e.Addf("FilterSamplesByName called directly (filters %+v, samples sharing location lists) sample %d: frames (leaf first)\n   want %s\n   got  %s", c.F, i, fstr(ex.samples[i].Frames), fstr(gotD[i].Frames))
+					}
+				}
+			}
+		}
+	}
 	// partition law: focus=R and ignore=R split the unfiltered profile
 	if c.PartR != "" {
 		fo, _, err1 := runProto(p, Filt{Focus: c.PartR})
@@ -871,4 +909,50 @@ func allNamed(p *profile.Profile) bool {
 	}
 	st := p.SampleType[len(p.SampleType)-1]
 	return st.Unit == "count" || st.Unit == "widgets"
+}
+
+// typable: every filter value can be typed on one interactive line (no white space, no comment marker).
+func typable(f Filt) bool {
+	for _, v := range []string{f.Focus, f.Ignore, f.Hide, f.Show, f.ShowFrom, f.TagFocus, f.TagIgnore, f.TagShow, f.TagHide} {
+		if strings.ContainsAny(v, " \t\n") || strings.Contains(v, "//:") || strings.HasPrefix(v, ">") {
+			return false
+		}
+	}
+	return true
+}
+
+// runProtoInteractive types the filters as "name=value" lines at the interactive prompt and saves the result with "proto >out".
+func runProtoInteractive(p *profile.Profile, f Filt) (*profile.Profile, *pp.Res, error) {
+	fl := f.flags()
+	var lines []string
+	for _, k := range []string{"focus", "ignore", "hide", "show", "show_from", "tagfocus", "tagignore", "tagshow", "taghide"} {
+		lines = append(lines, k+"="+fl[k])
+	}
+	lines = append(lines, "relative_percentages="+fl["relative_percentages"], "proto >out")
+	res := pp.Run(pp.Req{Args: []string{"src"}, Sources: map[string]*pp.Source{"src": {Prof: p}}, Lines: lines})
+	if res.Panic != "" {
+		return nil, res, fmt.Errorf("pprof panicked: %s", res.Panic)
+	}
+	if res.Err != nil {
+		return nil, res, res.Err
+	}
+	data := res.Out("out")
+	if data == "" {
+		_, errs := res.UI.Snapshot()
+		return nil, res, fmt.Errorf("interactive 'proto >out' wrote nothing: %.300q", errs)
+	}
+	out, err := profile.ParseData([]byte(data))
+	return out, res, err
+}
+
+func sameLocs(a, b []*profile.Location) bool {
+	if len(a) != len(b) {
+		return false
+	}
+	for i := range a {
+		if a[i] != b[i] {
+			return false
+		}
+	}
+	return true
 }
